@@ -23,6 +23,7 @@ from vx import props as P  # noqa: E402
 from vx import kani_run as K  # noqa: E402
 from vx import replay as R  # noqa: E402
 from vx import selftest as ST  # noqa: E402
+from vx import frame as F  # noqa: E402
 
 OUT = os.path.join(HERE, "out")
 EVID = os.path.join(HERE, "evidence")
@@ -126,6 +127,19 @@ def main():
         missing = canary_check(r, expect)
         if missing:
             undecided.append(f"unit={r.unit} reason=vacuous-precondition canary did not fail in {missing}")
+    # ---- frame conditions (token scan of the real source, see vx/frame.py) --------------------
+    frame_results = F.run_frames(cfg, args.repo)
+    for fr, fcfg in zip(frame_results, cfg.get("frames", [])):
+        obligations += 1
+        if fr["status"] == "ok":
+            discharged += 1
+            continue
+        why = f"frame `{fr['name']}` {fr['status']}: {fr.get('detail', '')}"
+        found = R.search_frame(prop, fcfg, fr, HERE, OUT, why) if fr["status"] == "broken" else None
+        if found:
+            violations.append(found)
+        else:
+            undecided.append(why)
     # ---- Kani units -------------------------------------------------------------------------
     bounded = []
     kani_checks = 0
@@ -189,6 +203,8 @@ def main():
             "verus_functions_verified": sum(r.verified for r in results),
             "kani_checks_unbounded": kani_checks,
             "bounded": bounded,
+            "frame_conditions": [{"name": fr["name"], "file": fr["file"], "status": fr["status"], "methods_scanned": fr["scanned"],
+                                  "back_end": "vx token scan (syntactic; not Verus/Kani)"} for fr in frame_results],
             "solver_s": round(solver_ms / 1000.0, 2),
             "normalisations": norm_log,
             "extraction_drops": cfg.get("extraction_drops", []),
